@@ -5,7 +5,7 @@ seed_i = sha256(P, VERIF_SEED, i).  Runs are distributed over forked workers;
 every run executes in a child forked from the (pristine) worker, so the
 initial state of a run does not depend on worker count or scheduling.
 """
-import os, sys, json, time, hashlib, random, argparse, traceback, faulthandler
+import os, sys, re, json, time, hashlib, random, argparse, traceback, faulthandler
 import multiprocessing
 from concurrent.futures import ProcessPoolExecutor, as_completed
 
@@ -56,6 +56,8 @@ def match_known(v, known):
         if k.get('check') != v.get('check'):
             continue
         if k.get('entry') is not None and k.get('entry') != v.get('entry'):
+            continue
+        if k.get('entry_re') is not None and not re.match(k['entry_re'] + '$', str(v.get('entry'))):
             continue
         need = k.get('detail_has')
         if need and need not in json.dumps(v.get('detail'), sort_keys=True):
@@ -169,6 +171,10 @@ def main(machine, argv=None):
     # ---- triage --------------------------------------------------------------
     known_hit = {}
     unknown = {}
+    if hasattr(machine, 'extra_violations') and not args.first:
+        for xprog, xv in machine.extra_violations():
+            xprog.setdefault('seed', 0); xprog['property'] = prop
+            violations.append(({'program': xprog, 'seed': xprog['seed'], 'i': -1}, xv))
     for r, v in violations:
         k = match_known(v, known)
         if k is not None:
